@@ -500,7 +500,37 @@ type rawEpollEvent struct {
 }
 
 // Syscall6 decodes the raw epoll system calls used by the poll_opt build.
+//
+// The event argument of epoll_ctl arrives as a uintptr that usually points
+// into the caller's stack frame. Unlike a real system call, this function is
+// ordinary Go code: a stack growth or a yield would move the caller's stack and
+// leave the number dangling. The entry point is therefore nosplit and copies
+// the 12 bytes before anything else happens.
+//
+//go:nosplit
 func Syscall6(trap, a1, a2, a3, a4, a5, a6 uintptr) (r1, r2 uintptr, err unix.Errno) {
+	var ev [12]byte
+	if trap == unix.SYS_EPOLL_CTL && a4 != 0 {
+		ev = *(*[12]byte)(unsafe.Pointer(a4)) //nolint:govet
+	}
+	// a2 (the event list of epoll_wait) may point into the caller's stack as
+	// well: turned back into a pointer right here it is adjusted like any
+	// other pointer when that stack moves while the task is parked
+	return syscall6(trap, a1, unsafe.Pointer(a2), a3, a4, ev) //nolint:govet
+}
+
+// RawSyscall6 is the same seam for the non-blocking variant.
+//
+//go:nosplit
+func RawSyscall6(trap, a1, a2, a3, a4, a5, a6 uintptr) (r1, r2 uintptr, err unix.Errno) {
+	var ev [12]byte
+	if trap == unix.SYS_EPOLL_CTL && a4 != 0 {
+		ev = *(*[12]byte)(unsafe.Pointer(a4)) //nolint:govet
+	}
+	return syscall6(trap, a1, unsafe.Pointer(a2), a3, a4, ev) //nolint:govet
+}
+
+func syscall6(trap, a1 uintptr, a2 unsafe.Pointer, a3, a4 uintptr, ev [12]byte) (r1, r2 uintptr, err unix.Errno) {
 	switch trap {
 	case unix.SYS_EPOLL_WAIT, unix.SYS_EPOLL_PWAIT:
 		vsched.Yield("sys:epoll_wait")
@@ -511,7 +541,7 @@ func Syscall6(trap, a1, a2, a3, a4, a5, a6 uintptr) (r1, r2 uintptr, err unix.Er
 		if errno != 0 {
 			return ^uintptr(0), 0, errno
 		}
-		base := unsafe.Pointer(a2) //nolint:govet
+		base := a2
 		for i, e := range evs {
 			p := (*[12]byte)(unsafe.Add(base, i*12))
 			*(*uint32)(unsafe.Pointer(&p[0])) = e.events
@@ -528,21 +558,15 @@ func Syscall6(trap, a1, a2, a3, a4, a5, a6 uintptr) (r1, r2 uintptr, err unix.Er
 		var events uint32
 		var data [8]byte
 		if a4 != 0 {
-			p := (*[12]byte)(unsafe.Pointer(a4)) //nolint:govet
-			events = *(*uint32)(unsafe.Pointer(&p[0]))
-			copy(data[:], p[4:])
+			events = *(*uint32)(unsafe.Pointer(&ev[0]))
+			copy(data[:], ev[4:])
 		}
-		if e := k.epollCtl(ep, int(a2), int(a3), events, data); e != 0 {
+		if e := k.epollCtl(ep, int(uintptr(a2)), int(a3), events, data); e != 0 {
 			return ^uintptr(0), 0, e
 		}
 		return 0, 0, 0
 	}
 	panic(fmt.Sprintf("vsys: raw syscall %d is not simulated", trap))
-}
-
-// RawSyscall6 is the same seam for the non-blocking variant.
-func RawSyscall6(trap, a1, a2, a3, a4, a5, a6 uintptr) (r1, r2 uintptr, err unix.Errno) {
-	return Syscall6(trap, a1, a2, a3, a4, a5, a6)
 }
 
 // Recvfrom is recvfrom(2).
